@@ -445,7 +445,27 @@ type MtreeEntry struct {
 	SHA256      []byte
 }
 
+// mtreeEscape encodes a path the way mtree(5) expects it: white space, the
+// backslash, the comment character and everything outside printable ASCII are
+// written as a backslash followed by three octal digits.
+func mtreeEscape(s string) string {
+	var b strings.Builder
+	for i := 0; i < len(s); i++ {
+		if c := s[i]; c <= ' ' || c >= 0x7f || c == '\\' || c == '#' {
+			fmt.Fprintf(&b, "\\%03o", c)
+		} else {
+			b.WriteByte(c)
+		}
+	}
+	return b.String()
+}
+
 func (me *MtreeEntry) WriteTo(w io.Writer) (int64, error) {
+	escaped := *me
+	escaped.Destination = mtreeEscape(me.Destination)
+	escaped.LinkSource = mtreeEscape(me.LinkSource)
+	me = &escaped
+
 	switch me.Type {
 	case files.TypeDir, files.TypeImplicitDir:
 		n, err := fmt.Fprintf(
